@@ -265,7 +265,7 @@ fn ref_enc_one(e: &Enc, c: u32) -> Vec<ETok> {
 }
 
 pub fn enc_scalars(e: &Enc) -> Vec<u32> {
-    let mut v: Vec<u32> = vec![0x41, 0x7F, 0x80, 0xA0, 0xA5, 0xE9, 0xFF, 0x100, 0x3B1, 0x416, 0x7FF, 0x800, 0x203E, 0x20AC, 0x2212, 0x3042, 0x30A2, 0x4E00, 0x9FA5, 0xAC00, 0xD7A3, 0xE000, 0xE5E5, 0xE7C7, 0xE78D, 0xF780, 0xF7FF, 0xFE10, 0xFF0D, 0xFF61, 0xFF9F, 0xFFFD, 0xFFFF, 0x10000, 0x1F4A9, 0x2000B, 0x10FFFF, 0x0E, 0x0F, 0x1B, 0x5C, 0x7E, 0x1E3F];
+    let mut v: Vec<u32> = vec![0x41, 0x7F, 0x80, 0xA0, 0xA5, 0xE9, 0xFF, 0x100, 0x3B1, 0x416, 0x7FF, 0x800, 0x203E, 0x20AC, 0x2212, 0x3042, 0x30A2, 0x4E00, 0x9FA5, 0xAC00, 0xD7A3, 0xE000, 0xE5E5, 0xE7C7, 0xE78D, 0xF780, 0xF7FF, 0xFE10, 0xFF0D, 0xFF61, 0xFF9F, 0xFFFD, 0xFFFF, 0x10000, 0x103FF, 0x1F4A9, 0x2000B, 0x10FC00, 0x10FFFF, 0x0E, 0x0F, 0x1B, 0x5C, 0x7E, 0x1E3F];
     // per-encoder: smallest scalar for each output shape of the reference encoder
     let mut shapes: std::collections::HashMap<String, u32> = std::collections::HashMap::new();
     let mut probe = |c: u32| {
@@ -324,7 +324,9 @@ pub fn enc_syms(e: &Enc, utf16: bool, runs: &[usize], small: bool) -> Vec<Vec<u3
     let all = enc_scalars(e);
     let pick: Vec<u32> = if small {
         // one scalar per reference output shape plus the literal fold/boundary characters
-        let mut keep: Vec<u32> = vec![0x41, 0x80, 0xA5, 0x203E, 0x2212, 0xFF61, 0xE5E5, 0x20AC, 0x1B, 0x0E, 0x5C, 0xFFFD, 0x1F4A9];
+        // (the last three are the astral scalars whose surrogates are the range boundaries:
+        // D800 DC00, D800 DFFF, DBFF DFFF)
+        let mut keep: Vec<u32> = vec![0x41, 0x80, 0xA5, 0x203E, 0x2212, 0xFF61, 0xE5E5, 0x20AC, 0x1B, 0x0E, 0x5C, 0xFFFD, 0x1F4A9, 0x10000, 0x103FF, 0x10FFFF];
         // an unmappable and a mappable representative inside the big CJK blocks (the encoders
         // have dedicated lookup branches for them)
         for (lo, hi) in [(0x4E00u32, 0x9FA0u32), (0xAC00, 0xD7A3), (0x3040, 0x30FF), (0x20000, 0x2A6DF), (0xF900, 0xFAFF)] {
